@@ -845,7 +845,7 @@ def run(ctx, status):
     from ..extract import gen
     io_status = gen.regen_io()
     for k, v in io_status.items():
-        if v != "extracted" and not k.startswith("h5."):
+        if v not in ("extracted", "extracted (ast)", "extracted (ast+exec agree)") and not k.startswith("h5."):
             ctx.note(f"T-gen: {k} {v}")
     ctx.extra["tgen_io_tables"] = {k: v for k, v in io_status.items() if not k.startswith("h5.")}
     driver_ok = lean_phase(ctx, status, ["OrixProofs.Properties.C15"])
